@@ -1123,16 +1123,32 @@ class PTable(EngineBase):
                             api, "%s of pid %d -> %r: %r stayed its "
                             "descendants for the whole call but are missing"
                             % (api, h.pid, sorted(got), missing))
+                # soundness against the union of the parent links that
+                # existed at any moment of the call (the scan is not atomic:
+                # records read before and after a PID reuse get mixed, which
+                # no user-space scan can avoid)
+                edges = {}
+                for s in allsn:
+                    for p_, v_ in s.items():
+                        edges.setdefault(p_, set()).add(v_[4])
                 for pid in got:
                     if pid == h.pid:
                         continue
-                    ok = False
-                    for s in allsn:
-                        if pid not in s:
-                            continue
-                        if self._chain_reaches(s, pid, h.pid, op["rec"]):
-                            ok = True
-                            break
+                    if not op["rec"]:
+                        ok = h.pid in edges.get(pid, ())
+                    else:
+                        ok = False
+                        seen_, todo = set(), [pid]
+                        while todo and not ok:
+                            c_ = todo.pop()
+                            if c_ in seen_:
+                                continue
+                            seen_.add(c_)
+                            for par in edges.get(c_, ()):
+                                if par == h.pid:
+                                    ok = True
+                                    break
+                                todo.append(par)
                     if not ok:
                         self._V(st, "C05.children_sound", tags + ["unrelated"],
                                 api, "pid %d never had a parent chain to %d"
